@@ -630,6 +630,7 @@ class Fn:
         self.ctx = ctx
         self.name = name
         self.kind = spec.get("kind", "table")
+        self.spec = spec
         self.table = table
         self.calls = 0
         self.susp = spec.get("susp", 0) if side == "a" else 0
@@ -654,6 +655,15 @@ class Fn:
         if self.fault_at is not None and self.calls == self.fault_at:
             ctx.ev("cfault", self.name)
             raise self.fault_exc
+        grow = self.spec.get("grows_source")
+        if grow and self.calls == grow["at"]:
+            # the callable changes the list the tool is reading from (a key that registers what it has seen, a
+            # worker appending follow-up jobs): a list iterator - and so the tool - sees the list as it is NOW
+            target = getattr(getattr(ctx, "built", None), "srcs", [None])[0]
+            lst = getattr(target, "obj", None)
+            if isinstance(lst, list):
+                lst.append(Item(grow.get("key", 0), ("grown", self.name, self.calls)))
+                ctx.ev("mutated", 0, "append-by-callable")
         if self.kind == "table":
             return self.table[argkey(args) % len(self.table)]
         if self.kind == "bycall":
